@@ -403,27 +403,29 @@ open Req.Attempt Req.Lemmas.C10Attempt
 
 /-- After the first application of the request middleware every later application reproduces
 the first one's wire request (and leaves the carried state alone). -/
-theorem mw_after_first (c : ClientCfg) (st : ReqState) (hr : unreplayable R st = false) (k : Nat) :
+theorem mw_after_first (c : ClientCfg) (hx : c.isXML c.jsonCT = false) (st : ReqState)
+    (hr : unreplayable R st = false) (k : Nat) :
     Attempt.mw R c (k + 1) (stateAt R c st (k + 1)) = Attempt.mw R c 0 st := by
   induction k with
-  | zero => exact mw_fix c 0 0 st hr
+  | zero => exact mw_fix c hx 0 0 st hr
   | succ k ih =>
     have : stateAt R c st (k + 1 + 1) = (Attempt.mw R c 0 st).1 := by
       show (Attempt.mw R c (k + 1) (stateAt R c st (k + 1))).1 = _
       rw [ih]
     rw [this]
-    exact mw_fix c 0 (k + 1) st hr
+    exact mw_fix c hx 0 (k + 1) st hr
 
 /-- **attempts_identical**: as long as nothing but the library's own middleware touches the
 request between attempts, attempt `k+1` puts exactly the request of attempt `k` on the wire —
 method, URL, query, headers, cookies and complete body — for every request that `Do` does not
 refuse up front. -/
-theorem attempts_identical (c : ClientCfg) (st : ReqState) (hr : unreplayable R st = false) (k : Nat) :
+theorem attempts_identical (c : ClientCfg) (hx : c.isXML c.jsonCT = false) (st : ReqState)
+    (hr : unreplayable R st = false) (k : Nat) :
     build R c st (k + 1) = build R c st k := by
   have h : ∀ n, build R c st (n + 1) = build R c st 0 := by
     intro n
     show (Attempt.mw R c (n + 1) (stateAt R c st (n + 1))).2 = (Attempt.mw R c 0 (stateAt R c st 0)).2
-    rw [mw_after_first c st hr n]; rfl
+    rw [mw_after_first c hx st hr n]; rfl
   cases k with
   | zero => exact h 0
   | succ k => rw [h (k + 1), h k]
@@ -436,7 +438,7 @@ theorem foldl_hooks_id (l : List (Nat × (Obs → ReqState → ReqState))) (ob :
     simp only [List.foldl_cons, h x (List.mem_cons_self ..)]
     exact ih s fun y hy => h y (List.mem_cons_of_mem _ hy)
 
-theorem wires_same_aux (p : Policy ReqState) (c : ClientCfg) (st : ReqState)
+theorem wires_same_aux (p : Policy ReqState) (c : ClientCfg) (hxml : c.isXML c.jsonCT = false) (st : ReqState)
     (hhooks : ∀ x ∈ p.hooks, ∀ o s, x.2 o s = s) (hr : unreplayable R st = false)
     (script : List Outcome) (ra : Nat) (s : ReqState) (prev : Option Resp)
     (hinv : Attempt.mw R c ra s = Attempt.mw R c 0 st) :
@@ -456,7 +458,7 @@ theorem wires_same_aux (p : Policy ReqState) (c : ClientCfg) (st : ReqState)
         rw [h1, hinv]; rfl
       · refine ih (ra + 1) _ _ ?_ x h1
         rw [hns]
-        exact mw_fix c 0 ra st hr
+        exact mw_fix c hxml 0 ra st hr
     · have h' : wants p o ra = false := by simpa using h
       obtain ⟨ev, fin, hev, _, _, hw, -⟩ := iter_stop p (Attempt.mw R c) o ra s prev h'
       obtain ⟨fin', _, hl⟩ := loop_cons_stop p (Attempt.mw R c) o rest ra s prev h'
@@ -471,8 +473,8 @@ theorem wires_same_aux (p : Policy ReqState) (c : ClientCfg) (st : ReqState)
 /-- **every attempt identical, whole call**: in a run of `Request.Do` whose retry hooks leave
 the request alone, every request that reaches the wire — whatever the outcome script, the retry
 count, the conditions — is the request of the first attempt. -/
-theorem all_attempts_same_wire (p : Policy ReqState) (c : ClientCfg) (st : ReqState)
-    (script : List Outcome)
+theorem all_attempts_same_wire (p : Policy ReqState) (c : ClientCfg) (hx : c.isXML c.jsonCT = false)
+    (st : ReqState) (script : List Outcome)
     (hhooks : ∀ x ∈ p.hooks, ∀ o s, x.2 o s = s) :
     ∀ x ∈ wires (run R p (Attempt.mw R c) (unreplayable R st) script st).events, x.2 = build R c st 0 := by
   unfold run
@@ -480,7 +482,7 @@ theorem all_attempts_same_wire (p : Policy ReqState) (c : ClientCfg) (st : ReqSt
   · simp [wires]
   · rename_i hc
     by_cases hr : unreplayable R st = false
-    · exact wires_same_aux p c st hhooks hr script 0 st none rfl
+    · exact wires_same_aux p c hx st hhooks hr script 0 st none rfl
     · -- an unreplayable body that is not refused is sent at most once
       have hr' : unreplayable R st = true := by simpa using hr
       have hd : p.enabled = false ∨ p.maxRetries = 0 := by
@@ -509,6 +511,56 @@ theorem all_attempts_same_wire (p : Policy ReqState) (c : ClientCfg) (st : ReqSt
         · simp at hx
         · simp only [List.mem_singleton] at hx
           rw [hx]; rfl
+
+/-- **prepare_idempotent**: the per-attempt request pipeline (parseRequestHeader,
+parseRequestCookie, parseRequestURL, parseRequestBody with the multipart / form / marshal
+handlers) is idempotent on the request state: preparing an already prepared request — for
+whichever attempt numbers — returns the same state AND the same request on the wire: URL (path
+parameters of both levels, base URL, scheme), raw query + merged query parameters, headers
+(order keys included: they travel in `r.Headers`), cookies, and every body kind.  This is the
+reason every attempt sends the same bytes; `hx` is the one law about the environment
+(`util.IsXMLType` does not hold of the JSON content type the pipeline itself stores). -/
+theorem prepare_idempotent (c : ClientCfg) (hx : c.isXML c.jsonCT = false) (j k : Nat) (st : ReqState)
+    (hr : unreplayable R st = false) :
+    Attempt.mw R c (k + 1) (Attempt.mw R c j st).1 = Attempt.mw R c j st := mw_fix c hx j k st hr
+
+/-- What every attempt's URL and query are: functions of what the CALLER set (`RawURL`, path
+parameters of both levels, `BaseURL`, scheme, query parameters of both levels) — untouched by
+the attempts. -/
+theorem url_every_attempt (c : ClientCfg) (hx : c.isXML c.jsonCT = false) (st : ReqState)
+    (hr : unreplayable R st = false) (k : Nat) :
+    (build R c st k).url = urlOf c st ∧
+    (build R c st k).query = st.rawQuery.map (fun p => (p.1, [p.2])) ++ mergeQuery c.query st.query := by
+  have h0 : build R c st k = build R c st 0 := by
+    induction k with
+    | zero => rfl
+    | succ n ih => rw [attempts_identical c hx st hr n, ih]
+  rw [h0]
+  exact ⟨rfl, rfl⟩
+
+/-! ### the cookie jar: the one difference between attempts that no hook made -/
+
+theorem jar_step (sets : List (List (Str × Str))) (jar0 : List (Str × Str)) (k : Nat) :
+    jarBefore sets jar0 (k + 1) = ((sets[k]?).getD []).foldl jarSet (jarBefore sets jar0 k) := by
+  unfold jarBefore
+  rw [List.take_succ, List.foldl_append]
+  cases h : sets[k]? <;> simp
+
+/-- **attempts_identical_modulo_jar**: on the wire, attempt `k+1` is attempt `k` with the jar
+brought up to date by the `Set-Cookie`s of response `k` — and nothing else; without a
+`Set-Cookie` in response `k` the two are equal byte for byte. -/
+theorem attempts_identical_modulo_jar (c : ClientCfg) (hx : c.isXML c.jsonCT = false) (st : ReqState)
+    (hr : unreplayable R st = false) (sets : List (List (Str × Str))) (jar0 : List (Str × Str)) (k : Nat) :
+    withJar (build R c st (k + 1)) (jarBefore sets jar0 (k + 1)) =
+      withJar (build R c st k) (((sets[k]?).getD []).foldl jarSet (jarBefore sets jar0 k)) ∧
+    ((sets[k]?).getD [] = [] →
+      withJar (build R c st (k + 1)) (jarBefore sets jar0 (k + 1)) =
+        withJar (build R c st k) (jarBefore sets jar0 k)) := by
+  rw [attempts_identical c hx st hr k, jar_step]
+  refine ⟨rfl, ?_⟩
+  intro h
+  rw [h]
+  rfl
 
 /-- `Do` refuses exactly the requests the identity theorem excludes (when a retry can follow). -/
 theorem refused_iff_unreplayable (p : Policy ReqState) (c : ClientCfg) (st : ReqState)
@@ -718,11 +770,13 @@ open Req.Attempt
 def exCfg : ClientCfg :=
   { cookies := [([97], [49])], headers := [([88], [[49]])], form := [([107], [[118]])], query := [],
     allowGetPayload := true, detect := fun _ => [116], boundaryCT := [66], formCT := [70], jsonCT := [74],
-    ctKey := [67], mGet := [71], mHead := [72], mOptions := [79] }
+    ctKey := [67], mGet := [71], mHead := [72], mOptions := [79],
+    isXML := fun ct => ct == [88], pathParams := [([105], [55])], baseURL := [98], schemePrefix := [115] }
 
 /-- `POST` with request cookie `r=2`, no body of its own -/
 def exReq : ReqState :=
-  { method := [80], url := [117], cookies := [([114], [50])], headers := [], form := [], ordered := [],
+  { method := [80], urlHead := .rel, path := [.lit [47, 117, 47], .param [105]], rawQuery := [([113], [49])],
+    pathParams := [], cookies := [([114], [50])], headers := [], form := [], ordered := [],
     query := [], multipart := false, files := [], body := .none }
 
 /-- a multipart upload through `SetFileReader(strings.NewReader("x"))` -/
@@ -747,6 +801,30 @@ theorem asFound_upload_emptied :
     (build .asFound { exCfg with form := [] } exUpload 0).body = .multipart [] [⟨[112], [110], [116], [120]⟩] ∧
     (build .asFound { exCfg with form := [] } exUpload 1).body = .multipart [] [⟨[112], [110], [116], []⟩] := by
   decide
+
+/-- rows 2/3 as failures of idempotence: preparing the prepared request changes the wire -/
+theorem asFound_not_idempotent :
+    (Attempt.mw .asFound exCfg 1 (Attempt.mw .asFound exCfg 0 exReq).1).2 ≠ (Attempt.mw .asFound exCfg 0 exReq).2 ∧
+    (Attempt.mw R exCfg 1 (Attempt.mw R exCfg 0 exReq).1) = Attempt.mw R exCfg 0 exReq := by
+  decide
+
+/-- URL building: relative `RawURL` `/u/{i}` + `BaseURL` `b`, the client-level path parameter
+`i = 7` fills the placeholder, the raw query `q=1` stays in front — in every attempt -/
+example : (build R exCfg exReq 3).url = [98, 47, 117, 47, 55] ∧
+    (build R exCfg exReq 3).query = [([113], [[49]])] := by decide
+/-- … a request-level parameter wins; an unfilled placeholder stays -/
+example : urlOf exCfg { exReq with pathParams := [([105], [56])] } = [98, 47, 117, 47, 56] ∧
+    urlOf { exCfg with pathParams := [] } exReq = [98, 47, 117, 47, 123, 105, 125] := by decide
+/-- the jar: response 0 sets `s=1`, response 1 replaces it and adds `t=2`, response 2 expires `s` -/
+example : jarBefore [[([115], [49])], [([115], [51]), ([116], [50])], [([115], [])]] [] 1 = [([115], [49])] ∧
+    jarBefore [[([115], [49])], [([115], [51]), ([116], [50])], [([115], [])]] [] 2 = [([115], [51]), ([116], [50])] ∧
+    jarBefore [[([115], [49])], [([115], [51]), ([116], [50])], [([115], [])]] [] 3 = [([116], [50])] ∧
+    (withJar (build R exCfg exReq 1) (jarBefore [[([115], [49])]] [] 1)).cookies =
+      [([114], [50]), ([97], [49]), ([115], [49])] := by decide
+/-- XML marshalling: with an XML content type in force the XML marshaller's output is sent, in
+every attempt; without any, JSON and the JSON content type -/
+example : (build R { exCfg with form := [] } { exReq with headers := [([67], [[88]])], body := .marshal [106] [120] } 2).body = .raw [120] ∧
+    (build R { exCfg with form := [] } { exReq with body := .marshal [106] [120] } 2).body = .raw [106] := by decide
 
 /-- the repaired middleware on the same inputs (instances of `attempts_identical`) -/
 example : build R exCfg exReq 2 = build R exCfg exReq 0 := by decide
